@@ -10,9 +10,25 @@ def run_mode(prop, mode, tier, seed, profile="debug"):
     trace = os.path.join(wd, "%s_%s_%s.ndjson" % (prop, mode, profile))
     args = [binp, mode, trace, str(seed)] + (["thorough"] if tier != "quick" else [])
     t0 = time.time()
-    r = subprocess.run(args, stdout=subprocess.PIPE, stderr=subprocess.PIPE, timeout=1800)
+    try:
+        r = subprocess.run(args, stdout=subprocess.PIPE, stderr=subprocess.PIPE, timeout=300 if tier == "quick" else 1800)
+    except subprocess.TimeoutExpired:
+        # a call that does not return (the whole run normally takes seconds): the case in progress is
+        # reported like a crash
+        class _R:
+            returncode, stderr = -9, b"timeout"
+        r = _R()
     if r.returncode != 0:
-        raise C.ToolError("vh-pure %s failed: %s" % (mode, r.stderr.decode()[-300:]))
+        # the process died inside the code under test: the case in progress (side file) becomes a
+        # `crash` record behind the complete records written so far
+        ip = trace + ".intent"
+        crash = open(ip).read().strip() if os.path.exists(ip) else ""
+        if not (crash.startswith("{") and crash.endswith("}")) or not os.path.exists(trace):
+            raise C.ToolError("vh-pure %s failed: %s" % (mode, r.stderr.decode()[-300:]))
+        lines = [ln for ln in open(trace, errors="replace").read().split("\n") if ln.startswith("{") and ln.endswith("}")]
+        with open(trace, "w") as f:
+            f.write("\n".join(lines + [crash]) + "\n")
+        C.log("[pure] %s %s: the process died (rc=%s) after %d records" % (mode, profile, r.returncode, len(lines)))
     n = sum(1 for _ in open(trace))
     t1 = time.time()
     rc, out = C.run_tlc("PureTrace", "PureTrace.cfg", os.path.join(C.WORK, "tlc_pure_" + mode), workers=1, env_extra={"TRACE": trace},
@@ -45,7 +61,7 @@ def distinct(trace):
     seen = set()
     for ln in open(trace):
         e = json.loads(ln)
-        if e["k"] == "panic":
+        if e["k"] in ("panic", "crash"):
             seen.add(("panic", len(e["l"]), len(e["r"])))
         elif e["k"] == "cmp":
             seen.add((len(e["l"]), len(e["r"]), tuple(e["l"][:3]), tuple(e["r"][:3]), e["reps"]))
